@@ -97,7 +97,9 @@ def history(rng, big=True):
                 target = rng.choice(E) if rng.random() < 0.7 else size + rng.choice([1, bs - 1, bs, bs + 1, 3 * bs, 73 * bs])
                 n = target - size if target > size else rng.choice([1, bs - 1, bs, 2 * bs + 3])
             else:
-                n = rng.choice([1, 2, bs - 1, bs, bs + 1, 2 * bs, 5 * bs + 7])
+                # inside the file; sometimes long enough to run past the end (overwrite, then extend - through the tables the handle
+                # has loaded while overwriting)
+                n = rng.choice([1, 2, bs - 1, bs, bs + 1, 2 * bs, 5 * bs + 7, max(1, size - pos + rng.choice([1, bs, 3 * bs])), max(1, size - pos)])
             if pos + n > maxsize:
                 n = max(1, maxsize - pos)
             if rng.random() < 0.12:
@@ -368,6 +370,15 @@ def run_one(ctx, L, ops, meta):
             if r2 != "ok 1":
                 return ("corr", "a block the model's truncation gives back is not free in the bitmap afterwards", {"script": L2, "meta": meta, "block": b}, "ok 1", r2)
     return None
+
+
+def valid_history(ctx):
+    """a history of this generator as a plain script (for the checks that judge valid histories by other means: sanitizers, ledger)"""
+    L, ops, meta = history(ctx.rng)
+    L = expand_fill(ctx, L)
+    meta = dict(meta)
+    meta["blocks"] = 1760
+    return [l for l in L if not l.startswith("alog ")], 0, 1760, meta
 
 
 def run(ctx, n, fault_every=4):
